@@ -5,6 +5,7 @@ package main
 // rebuild the reference database ("fold of the log prefix").
 
 import (
+	"verif/harness/internal/kvsafe"
 	"fmt"
 	"io"
 	"os"
@@ -99,7 +100,7 @@ func newNode(st surv, crashAt int64, mode string, cutPct int, gated bool) *node 
 	} else {
 		setFS(&countFS{FS: n.mem, c: n.clk})
 	}
-	realKv, err := kv.NewPebbleKVFactory(&kv.FactoryOptions{DataDir: dd, CacheSizeMB: 4})
+	realKv, err := kvsafe.New(&kv.FactoryOptions{DataDir: dd, CacheSizeMB: 4})
 	must(err)
 	n.kvf = &kvFactory{real: realKv}
 	if n.disk == "" {
@@ -239,7 +240,7 @@ func readWalDir(dir string) []*proto.LogEntry {
 // every prefix that was asked for.
 func foldDump(entries []*proto.LogEntry, upTo int64) []string {
 	defer setFS(setFS(nil))
-	realKv, err := kv.NewPebbleKVFactory(&kv.FactoryOptions{DataDir: "/ref", CacheSizeMB: 4, InMemory: true})
+	realKv, err := kvsafe.New(&kv.FactoryOptions{DataDir: "/ref", CacheSizeMB: 4, InMemory: true})
 	must(err)
 	f := &kvFactory{real: realKv}
 	db, err := kv.NewDB(ns, shardId, f, time.Hour, time2.SystemClock)
